@@ -102,7 +102,12 @@ namespace sqf::runtime
         int m_exit_code;
         std::atomic<bool> m_run_atomic;
 
+        // Number of decimals numbers are printed with (toFixed), -1 for the default format
+        int m_scalar_decimals = -1;
+
     public:
+        int scalar_decimals() const { return m_scalar_decimals; }
+        void scalar_decimals(int value) { m_scalar_decimals = value; }
         bool is_exit_requested() const { return m_is_exit_requested; }
         void exit(int exit_code) { m_exit_code = exit_code; m_is_exit_requested = true; }
         std::optional<int> exit_code() const { return m_is_exit_requested ? m_exit_code : std::optional<int>(); }
